@@ -13,11 +13,20 @@ the number of semantic errors of the model against the real parser on the same t
 -/
 namespace PhpVerif
 
+/-- a boundary of a position: the start (StartLine, StartPos) resp. the end (EndLine, EndPos) of a token
+    of the stream, or the marker -1 / -1.  The builder's getters only ever copy such a pair from a token
+    or from the position of a node, so every boundary in a tree is one of these: the model keeps the
+    reference and looks the numbers up when the tree is written out (`PRef.startOf`, `PRef.endOf`). -/
+inductive PRef where
+  | tok (i : Nat)
+  | absent
+  deriving Repr, Inhabited, DecidableEq
+
 /-- values the parser manipulates -/
 inductive V where
   | nil                                    -- Go nil (pointer, interface or slice)
   | tok (i : Nat)                          -- the i-th token of the stream
-  | pos (sl el sp ep : Int)                -- *position.Position
+  | pos (s e : PRef)                       -- *position.Position: where it starts and where it ends
   | node (kind uid : Nat) (fs : List V)    -- a node: struct fields in declaration order (field 0 = Position)
   | list (xs : List V)                     -- a non-nil slice
   | bytes (pre : List Nat) (i : Nat)       -- `pre ++ Value of token i`
@@ -100,6 +109,32 @@ structure TokInfo where
   val : Option (List Nat) := none          -- the token's bytes, supplied for T_NUM_STRING only
   deriving Repr, Inhabited
 
+/-- all the parser ever reads of a token: its number, whether it carries a position, and (T_NUM_STRING) its
+    digits.  Line and offset numbers are not in here: the actions cannot branch on them. -/
+structure TokKey where
+  id : Nat
+  hasPos : Bool
+  val : Option (List Nat) := none
+  deriving Repr, Inhabited, DecidableEq
+
+def TokInfo.key (ti : TokInfo) : TokKey := { id := ti.id, hasPos := ti.pos.isSome, val := ti.val }
+
+/-- the numbers behind a boundary -/
+def PRef.startOf (toks : Array TokInfo) : PRef → Int × Int
+  | .absent => (-1, -1)
+  | .tok i => match toks[i]? with
+    | some ti => (match ti.pos with
+      | some p => (p.1, p.2.2.1)
+      | none => (-1, -1))
+    | none => (-1, -1)
+def PRef.endOf (toks : Array TokInfo) : PRef → Int × Int
+  | .absent => (-1, -1)
+  | .tok i => match toks[i]? with
+    | some ti => (match ti.pos with
+      | some p => (p.2.1, p.2.2.2)
+      | none => (-1, -1))
+    | none => (-1, -1)
+
 /-- `strconv.Atoi` succeeds: optional sign, at least one digit, only digits, fits int64 -/
 def atoiOk (b : List Nat) : Bool :=
   let (neg, ds) := match b with
@@ -118,7 +153,7 @@ def intOffsetOk (digits : List Nat) (neg : Bool) : Bool :=
   | [] => true
 
 structure ECtx where
-  toks : Array TokInfo
+  toks : Array TokKey
   combs : List PosComb
   cur : Option Nat            -- index of `currentToken` (the token lexed last); none before the first `Lex`
   envs : List (List V)        -- envs[k] = the right-hand-side values after the first k stores (envs[0] = as reduced)
@@ -138,45 +173,47 @@ def envAt (envs : List (List V)) (k : Nat) : List V :=
   | none => lastEnv envs
 
 /-- getNodeStartPos / getNodeEndPos / getListStartPos / getListEndPos and `t.Position.X`; `none` = Go panics -/
-def nodeStart : V → Option (Int × Int)
-  | .nil => some (-1, -1)
-  | .node _ _ (.pos sl _ sp _ :: _) => some (sl, sp)
-  | .node _ _ _ => some (-1, -1)
+def nodeStart : V → Option PRef
+  | .nil => some .absent
+  | .node _ _ (.pos s _ :: _) => some s
+  | .node _ _ _ => some .absent
   | _ => none
-def nodeEnd : V → Option (Int × Int)
-  | .nil => some (-1, -1)
-  | .node _ _ (.pos _ el _ ep :: _) => some (el, ep)
-  | .node _ _ _ => some (-1, -1)
+def nodeEnd : V → Option PRef
+  | .nil => some .absent
+  | .node _ _ (.pos _ e :: _) => some e
+  | .node _ _ _ => some .absent
   | _ => none
 def lastV : List V → Option V
   | [] => none
   | [x] => some x
   | _ :: r => lastV r
-def startOf (toks : Array TokInfo) (sort : Nat) (v : V) : Option (Int × Int) :=
+/-- the boundary of a token: the token itself, when it carries a position (Go: `t.Position.StartLine` on a
+    nil position panics) -/
+def tokRef (toks : Array TokKey) (i : Nat) : Option PRef :=
+  match toks[i]? with
+  | some k => if k.hasPos then some (.tok i) else none
+  | none => none
+def startOf (toks : Array TokKey) (sort : Nat) (v : V) : Option PRef :=
   if sort == 1 then
     match v with
-    | .tok i => match toks[i]? with
-      | some ti => ti.pos.map (fun p => (p.1, p.2.2.1))
-      | none => none
+    | .tok i => tokRef toks i
     | _ => none
   else if sort == 3 then nodeStart v
   else match v with
-    | .nil => some (-1, -1)
-    | .list [] => some (-1, -1)
+    | .nil => some .absent
+    | .list [] => some .absent
     | .list (x :: _) => nodeStart x
     | _ => none
-def endOf (toks : Array TokInfo) (sort : Nat) (v : V) : Option (Int × Int) :=
+def endOf (toks : Array TokKey) (sort : Nat) (v : V) : Option PRef :=
   if sort == 1 then
     match v with
-    | .tok i => match toks[i]? with
-      | some ti => ti.pos.map (fun p => (p.2.1, p.2.2.2))
-      | none => none
+    | .tok i => tokRef toks i
     | _ => none
   else if sort == 3 then nodeEnd v
   else match v with
-    | .nil => some (-1, -1)
+    | .nil => some .absent
     | .list l => match lastV l with
-      | none => some (-1, -1)
+      | none => some .absent
       | some x => nodeEnd x
     | _ => none
 
@@ -184,7 +221,7 @@ def isNilV : V → Bool
   | .nil => true
   | _ => false
 
-def evalPos (toks : Array TokInfo) (combs : List PosComb) (comb : Nat) (args : List V) : V :=
+def evalPos (toks : Array TokKey) (combs : List PosComb) (comb : Nat) (args : List V) : V :=
   match combs[comb]? with
   | none => .bad
   | some c =>
@@ -194,7 +231,7 @@ def evalPos (toks : Array TokInfo) (combs : List PosComb) (comb : Nat) (args : L
     let (ss, sa, es, ea) := if useOpt then (c.optStartSort, c.optStartArg, c.optEndSort, c.optEndArg)
                             else (c.startSort, c.startArg, c.endSort, c.endArg)
     match startOf toks ss ((args[sa]?).getD .bad), endOf toks es ((args[ea]?).getD .bad) with
-    | some (sl, sp), some (el, ep) => .pos sl el sp ep
+    | some s, some e => .pos s e
     | _, _ => .bad
 
 def setNth (l : List V) (k : Nat) (x : V) : List V :=
@@ -209,7 +246,7 @@ def dropLastV : List V → List V
   | a :: r => a :: dropLastV r
 
 /-- one step of the member-access fold -/
-def chainStep (toks : Array TokInfo) (combs : List PosComb) (tbl : List (Nat × Nat)) (acc n : V) : V :=
+def chainStep (toks : Array TokKey) (combs : List PosComb) (tbl : List (Nat × Nat)) (acc n : V) : V :=
   match n with
   | .node k u fs =>
     match tbl.find? (fun r => r.1 == k) with
@@ -218,7 +255,7 @@ def chainStep (toks : Array TokInfo) (combs : List PosComb) (tbl : List (Nat × 
   | _ => acc
 
 /-- one step of the `$$…` fold (from the innermost outwards) -/
-def nestStep (toks : Array TokInfo) (combs : List PosComb) (tbl : List (Nat × Nat)) (n inner : V) : V :=
+def nestStep (toks : Array TokKey) (combs : List PosComb) (tbl : List (Nat × Nat)) (n inner : V) : V :=
   match n with
   | .node k u fs =>
     match tbl.find? (fun r => r.1 == k) with
@@ -342,7 +379,7 @@ def evalObjs (c : ECtx) (uid0 : Nat) : List ObjLit → List V → List V
     evalObjs c uid0 os (acc ++ [v])
 
 /-- the stores of a path, one after the other: every value is computed from the state the stores before it left -/
-def runMuts (toks : Array TokInfo) (combs : List PosComb) (cur : Option Nat) (uid0 : Nat) (objs : List ObjLit) : List TMut → List (List V) → List (List V)
+def runMuts (toks : Array TokKey) (combs : List PosComb) (cur : Option Nat) (uid0 : Nat) (objs : List ObjLit) : List TMut → List (List V) → List (List V)
   | [], envs => envs
   | m :: ms, envs =>
     let c0 : ECtx := { toks := toks, combs := combs, cur := cur, envs := envs, objs := [] }
@@ -353,19 +390,19 @@ def runMuts (toks : Array TokInfo) (combs : List PosComb) (cur : Option Nat) (ui
     runMuts toks combs cur uid0 objs ms (envs ++ [env'])
 
 /-- evaluation context of a path after all its stores -/
-def pathCtx (toks : Array TokInfo) (combs : List PosComb) (p : TPath) (args : List V) (cur : Option Nat) (uid0 : Nat) : ECtx :=
+def pathCtx (toks : Array TokKey) (combs : List PosComb) (p : TPath) (args : List V) (cur : Option Nat) (uid0 : Nat) : ECtx :=
   let envs := runMuts toks combs cur uid0 p.objs p.muts [args]
   let c1 : ECtx := { toks := toks, combs := combs, cur := cur, envs := envs, objs := [] }
   { c1 with objs := evalObjs c1 uid0 p.objs [] }
 
 /-- the meaning of one path on the right-hand-side values `args` -/
-def runPath (toks : Array TokInfo) (combs : List PosComb) (p : TPath) (args : List V) (cur : Option Nat) (uid0 : Nat) : PathOut :=
+def runPath (toks : Array TokKey) (combs : List PosComb) (p : TPath) (args : List V) (cur : Option Nat) (uid0 : Nat) : PathOut :=
   let c := pathCtx toks combs p args cur uid0
   { ret := p.ret.map (evalTm c), root := p.root.map (evalTm c), uid := uid0 + p.objs.length }
 
 /-- a path is the trace of one run through the action: it applies when all its branch conditions, read at
     the points where the action tests them, hold -/
-def pathApplies (toks : Array TokInfo) (combs : List PosComb) (p : TPath) (args : List V) (cur : Option Nat) : Bool :=
+def pathApplies (toks : Array TokKey) (combs : List PosComb) (p : TPath) (args : List V) (cur : Option Nat) : Bool :=
   p.conds.all (evalCond (pathCtx toks combs p args cur 0))
 
 /-- state threaded through the reductions -/
@@ -382,7 +419,7 @@ def mkPathTable (ps : List TPath) : PathTable :=
   let n := ps.foldl (fun m p => max m (p.prod + 1)) 0
   ps.foldl (fun (t : Array (List TPath)) p => t.modify p.prod (fun l => l ++ [p])) (Array.replicate n [])
 
-def reduceTree (toks : Array TokInfo) (combs : List PosComb) (tbl : PathTable) (st : TreeSt) (prod : Int) (args : List V)
+def reduceTree (toks : Array TokKey) (combs : List PosComb) (tbl : PathTable) (st : TreeSt) (prod : Int) (args : List V)
     (dflt : V) (pos : Nat) : Except String (V × TreeSt) :=
   let cur : Option Nat := if pos == 0 then none else some (pos - 1)
   match (tbl[prod.toNat]?).getD [] with
@@ -396,16 +433,22 @@ def reduceTree (toks : Array TokInfo) (combs : List PosComb) (tbl : PathTable) (
         let o := runPath toks combs p args cur st.uid
         .ok (o.ret.getD dflt, { uid := o.uid, root := (o.root <|> st.root), reports := st.reports + p.reports })
 
-def treeSem (toks : Array TokInfo) (combs : List PosComb) (tbl : PathTable) : YYSem V TreeSt :=
+def treeSem (toks : Array TokKey) (combs : List PosComb) (tbl : PathTable) : YYSem V TreeSt :=
   { zero := .nil, tokVal := fun i => .tok i,
     reduce := fun st prod args dflt pos => reduceTree toks combs tbl st prod args dflt pos }
 
 /-- the whole parser on a token stream: return code, root node, number of semantic errors, moves -/
-def parseModel (t : YYTab) (combs : List PosComb) (tbl : PathTable) (toks : Array TokInfo) :
+def parseModel (t : YYTab) (combs : List PosComb) (tbl : PathTable) (toks : Array TokKey) :
     Except YYFault (Option Nat × YYSt V TreeSt) :=
   let sem := treeSem toks combs tbl
   -- the end token (id 0, no position) is the last entry of `toks`; the driver reads ids
   let input := (toks.toList.map (·.id)).toArray
   yyRun t sem input (64 * (toks.size + 16) + 1024) (yyInit sem {})
+
+/-- the parser on the scanner's tokens: everything but the tokens' keys is dropped before the driver and
+    the actions run; the line and offset numbers come back only when a position is written out -/
+def parseTokens (t : YYTab) (combs : List PosComb) (tbl : PathTable) (toks : Array TokInfo) :
+    Except YYFault (Option Nat × YYSt V TreeSt) :=
+  parseModel t combs tbl (toks.map TokInfo.key)
 
 end PhpVerif
